@@ -12,6 +12,22 @@ import PorepyVerif.C35.Lemmas
 
 namespace PorepyVerif.C35
 
+/-! ## non-vacuity of the well-formedness predicate
+
+`Csr.WF` is decidable; the driver evaluates it on every matrix the generator produces (`wf_in`) and
+the harness fails if it is ever false.  Concrete witnesses: an empty row, unsorted and duplicate
+column indices, an explicit zero; zero-size matrices. -/
+
+example : (⟨3, 3, [0, 2, 2, 5], [2, 0, 1, 1, 0], [1, 2, 3, 4, 0]⟩ : Csr).WF := by decide +kernel
+example : (⟨0, 3, [0], [], []⟩ : Csr).WF ∧ (⟨2, 0, [0, 0, 0], [], []⟩ : Csr).WF := by decide +kernel
+example : (⟨3, 3, [0, 2, 2, 5], [2, 0, 1, 1, 0], [1, 2, 3, 4, 0]⟩ : Csr).toDense
+    = [[2, 0, 1], [0, 0, 0], [0, 7, 0]] := by decide +kernel
+/-- the hypotheses of `merge_eq_row_replacement` hold for an unsorted line list -/
+example : (⟨3, 3, [0, 2, 2, 4], [0, 2, 0, 1], [1, 2, 3, 4]⟩ : Csr).WF ∧ (⟨2, 3, [0, 1, 3], [1, 0, 2], [7, 8, 9]⟩ : Csr).WF ∧
+    [1, 0].length = 2 ∧ [1, 0].Nodup ∧ (∀ l ∈ [1, 0], l < 3) := by decide +kernel
+/-- not well formed: decreasing `indptr`, column index out of range -/
+example : ¬ (⟨2, 2, [0, 2, 1], [0, 1], [1, 2]⟩ : Csr).WF ∧ ¬ (⟨1, 2, [0, 1], [2], [1]⟩ : Csr).WF := by decide +kernel
+
 /-! ## index-pointer expansion -/
 
 /-- `expand_index_pointers(lo, hi)` is the concatenation of the ranges `[lo_k, hi_k)` — the loop in
